@@ -6,3 +6,5 @@ cd /repo && git apply "$P" || exit 3
 cd /verif && env VERIF_OUT=/tmp/canary "$@" ./check "$ID" quick > /tmp/canary-$ID.log 2>&1; RC=$?
 git -C /repo checkout -- .
 echo "canary $(basename $P) on $ID: exit=$RC $(grep -c '^VIOLATION' /tmp/canary-$ID.log) violation line(s); $(grep '^violation' /tmp/canary-$ID.log | head -2 | cut -c1-220)"
+# rebuild the harness binaries from the reverted tree (the check above left mutant binaries)
+cd /verif && cargo build --offline --workspace >/dev/null 2>&1
